@@ -142,6 +142,18 @@ class SStr(V):
         return 'SStr(%s)' % self.expr
 
 
+class SIte(V):
+    """lazy choice between two values of possibly different python types (forced - i.e. the
+    path is split - only when an operation cannot distribute over it)"""
+    __slots__ = ('c', 'a', 'b')
+
+    def __init__(self, c, a, b):
+        self.c, self.a, self.b = c, a, b
+
+    def __repr__(self):
+        return 'SIte(%s ? %r : %r)' % (self.c, self.a, self.b)
+
+
 class STuple(V):
     __slots__ = ('items',)
 
